@@ -30,7 +30,10 @@ CHECKS = [
      "text": "Generated zero-sum derivative tables (2-12 entries, zeros, near-cancelling values, 12 decades, any insertion order) x 3 "
              "schemes x every positive entry as active unit: the selection as a function of the uniform draw is located exactly "
              "and integrated; inflow of each unit must equal the magnitude of its negative derivative, non-negative units are "
-             "never returned (end points included), fresh and reused instances agree.",
+             "never returned (end points included), fresh and reused instances agree. Handler part: the real two-composite-object "
+             "handler (shared _fill_lifting) and the three-body (bending) handler fill the scheme at one fixed configuration "
+             "with every point mass of positive factor derivative active in turn; the lifted inflow must again equal the "
+             "magnitudes of the negative derivatives (oracle: independent Ewald sum / finite differences of the bending energy).",
      "note": "Trusted: the substitution of the module attribute `random` (uniform(a,b)=a+(b-a)u as in CPython); bisection assumes a step function, verified by interior probes."},
     {"id": "C18", "engine": "hypothesis-runner", "design_ref": "DESIGN.md §3 C18",
      "technique": "property-based testing (Hypothesis) with scripted randomness: exact enumeration of alias-table rows x located thresholds against rate/total",
